@@ -6,7 +6,8 @@ E1, three complete enumerations on the real TokenParser / StringArgs / ArgvArgs:
 (a) totality: every string of length <= 6 (quick) / 7 (thorough) over {a, space, tab, ', ", \\, -}.
     StringArgs(s).tokens must return a list of str without raising; a watchdog (SIGALRM interval timer,
     re-armed per block of strings, confirmed on the single string) turns non-termination into a verdict
-    instead of a hang.  A string without quote and backslash must split exactly like str.split().
+    instead of a hang.  (a2) repeats this for length <= 5 / 6 over {a, space, ', \\, -, newline, CR} plus one
+    rarer whitespace character rotated in by VERIF_SEED.  A string without quote and backslash must split exactly like str.split().
     option_tokens must be the tokens before the first '--' and has_option_token must agree with it.
 
 (b) inverse law: every list of tokens over {a, e-acute, space, ', ", \\, -, =} that the quoting scheme can
@@ -51,6 +52,10 @@ from mc import common, par, report
 PID = "C08"
 
 ALPHA_A = ["a", " ", "\t", "'", '"', "\\", "-"]
+# further characters str.split() treats as whitespace: newline and carriage return are always covered in a second, shorter
+# run of part (a); VERIF_SEED rotates one of the rarer ones in on top
+WS_CORE = ["\n", "\r"]
+WS_ROTATED = ["\x0b", "\x0c", "\x1f", "\x85", "\xa0", "\u2003", "\u3000", "\x1c"]
 ALPHA_B = ["a", "é", " ", "'", '"', "\\", "-", "="]
 SEPS = [" ", "  ", "\t", "\n"]
 # (max number of tokens, max token length) boxes, enumerated completely, per tier
@@ -159,25 +164,25 @@ def _option_tokens_violation(ra, toks, case, probes):
     return []
 
 
-def strings_with_prefix(prefix, maxlen):
+def strings_with_prefix(prefix, maxlen, alpha):
     """prefix itself and every extension up to maxlen, shortest first."""
     out = []
     for extra in range(0, maxlen - len(prefix) + 1):
-        for tail in itertools.product(ALPHA_A, repeat=extra):
+        for tail in itertools.product(alpha, repeat=extra):
             out.append(prefix + "".join(tail))
     return out
 
 
-def part_a(maxlen):
+def part_a(maxlen, alpha=ALPHA_A):
     split = min(3, maxlen)
-    short = ["".join(t) for L in range(split) for t in itertools.product(ALPHA_A, repeat=L)]
-    prefixes = ["".join(t) for t in itertools.product(ALPHA_A, repeat=split)]
+    short = ["".join(t) for L in range(split) for t in itertools.product(alpha, repeat=L)]
+    prefixes = ["".join(t) for t in itertools.product(alpha, repeat=split)]
 
     def work(share):
         vs = []
         n = nt = 0
         for p in share:
-            ss = short if p is None else strings_with_prefix(p, maxlen)
+            ss = short if p is None else strings_with_prefix(p, maxlen, alpha)
             c, t = watched(ss, check_a, vs, lambda s: "'" in s or '"' in s or "\\" in s)
             n += c
             nt += t
@@ -189,7 +194,7 @@ def part_a(maxlen):
         n += c
         nt += t
         vs.extend(v)
-    vs.sort(key=lambda v: (len(v["case"]["string"]), [ALPHA_A.index(ch) for ch in v["case"]["string"]]))
+    vs.sort(key=lambda v: (len(v["case"]["string"]), [alpha.index(ch) for ch in v["case"]["string"]]))
     return n, nt, vs
 
 
@@ -471,6 +476,14 @@ def main():
     rep.merge(vsa)
     rep.part("a-totality", alphabet=ALPHA_A, max_length=la, strings=na, with_quote_or_backslash=nta,
              complete=(na == sum(len(ALPHA_A) ** L for L in range(la + 1))))
+    ws = WS_ROTATED[rep.seed % len(WS_ROTATED)]
+    alpha2 = ["a", " ", "'", "\\", "-"] + WS_CORE + [ws]
+    la2 = 6 if thorough else 5
+    na2, nta2, vsa2 = part_a(la2, alpha2)
+    rep.merge(vsa2)
+    rep.part("a2-other-whitespace", alphabet=alpha2, rotated_whitespace=ws, max_length=la2, strings=na2,
+             complete=(na2 == sum(len(alpha2) ** L for L in range(la2 + 1))))
+    rep.set("rotated_whitespace", repr(ws))
     nb, ntb, vsb = part_b(rep.tier)
     rep.merge(vsb)
     ntoks = {m: len(tokens_upto(m)) for _n, m in BOUNDS_B[rep.tier]}
@@ -481,7 +494,7 @@ def main():
     rep.merge(vsc)
     rep.part("c-equivalence", pool=POOL_C, max_tokens=lc, lines=nlines, cases=nc, formats=3, modes=2,
              with_option_and_quoted_token=ntc)
-    rep.set("evaluations", na + nb + nc)
+    rep.set("evaluations", na + na2 + nb + nc)
     rep.set("distinct_nontrivial", nta + ntb + ntc)
     rep.set("exhaustive", True)
     rep.set("rule", "(a) all strings <= %d over 7 characters; (b) all expressible token lists in the boxes x all quote styles per token x 16 layouts; "
